@@ -720,15 +720,7 @@ impl<'a> Exec<'a> {
                     hole: None,
                 });
             }
-            let flow = if let Op::Compute(asm::Compute::Compute) = op {
-                self.compute(vm)
-            } else {
-                step_simple(vm, &op, self.env).map_err(|kind| RExecErr {
-                    index: pc,
-                    kind,
-                    hole: None,
-                })
-            }?;
+            let flow = self.step_any(vm, &op)?;
             if let Some(f) = self.on_step.as_mut() {
                 f(vm);
             }
@@ -744,6 +736,20 @@ impl<'a> Exec<'a> {
                     return Ok(());
                 }
             }
+        }
+    }
+
+    /// One operation (gas for the op itself is the caller's business).
+    pub fn step_any(&mut self, vm: &mut RVm, op: &Op) -> Result<Flow, RExecErr> {
+        let pc = vm.pc;
+        if let Op::Compute(asm::Compute::Compute) = op {
+            self.compute(vm)
+        } else {
+            step_simple(vm, op, self.env).map_err(|kind| RExecErr {
+                index: pc,
+                kind,
+                hole: None,
+            })
         }
     }
 
